@@ -263,4 +263,63 @@ theorem min_distance (b r : Nat) (w : List Nat) (hw : InR size w) (hl : w.length
     rw [hLnil] at this; simp at this
 
 end field
+/-! ### Hamming distance -/
+
+theorem zipWith_xor_all_zero : ∀ (a b : List Nat), a.length = b.length →
+    (∀ x, x ∈ List.zipWith (· ^^^ ·) a b → x = 0) → a = b
+  | [], [], _, _ => rfl
+  | [], _ :: _, h, _ => by simp at h
+  | _ :: _, [], h, _ => by simp at h
+  | x :: xs, y :: ys, hl, hz => by
+    have h1 : x ^^^ y = 0 := hz _ (by simp)
+    have h2 := zipWith_xor_all_zero xs ys (by simpa using hl) (fun z hz' => hz z (by simp [hz']))
+    rw [xor_eq_zero h1, h2]
+
+theorem weight_triangle : ∀ (a v b : List Nat), a.length = v.length → v.length = b.length →
+    weight (List.zipWith (· ^^^ ·) a b) ≤ weight (List.zipWith (· ^^^ ·) a v) + weight (List.zipWith (· ^^^ ·) v b)
+  | [], [], [], _, _ => Nat.le_refl _
+  | [], _ :: _, _, h, _ => by simp at h
+  | _ :: _, [], _, h, _ => by simp at h
+  | _, [], _ :: _, _, h => by simp at h
+  | _, _ :: _, [], _, h => by simp at h
+  | x :: xs, y :: ys, z :: zs, h1, h2 => by
+    have ih := weight_triangle xs ys zs (by simpa using h1) (by simpa using h2)
+    unfold weight at *
+    simp only [List.zipWith_cons_cons]
+    by_cases hxz : x ^^^ z = 0
+    · rw [List.filter_cons_of_neg (by simp [hxz])]
+      have a1 := List.length_filter_le (· != 0) ((x ^^^ y) :: List.zipWith (· ^^^ ·) xs ys)
+      have : (List.filter (· != 0) ((x ^^^ y) :: List.zipWith (· ^^^ ·) xs ys)).length ≥
+          (List.filter (· != 0) (List.zipWith (· ^^^ ·) xs ys)).length := by
+        by_cases hh : x ^^^ y = 0
+        · rw [List.filter_cons_of_neg (by simp [hh])]; exact Nat.le_refl _
+        · rw [List.filter_cons_of_pos (by simpa using hh)]; simp
+      have : (List.filter (· != 0) ((y ^^^ z) :: List.zipWith (· ^^^ ·) ys zs)).length ≥
+          (List.filter (· != 0) (List.zipWith (· ^^^ ·) ys zs)).length := by
+        by_cases hh : y ^^^ z = 0
+        · rw [List.filter_cons_of_neg (by simp [hh])]; exact Nat.le_refl _
+        · rw [List.filter_cons_of_pos (by simpa using hh)]; simp
+      omega
+    · rw [List.filter_cons_of_pos (by simpa using hxz)]
+      have hor : x ^^^ y ≠ 0 ∨ y ^^^ z ≠ 0 := by
+        by_cases hh : x ^^^ y = 0
+        · right
+          rw [xor_eq_zero hh] at hxz; exact hxz
+        · exact Or.inl hh
+      rcases hor with hh | hh
+      · rw [List.filter_cons_of_pos (l := List.zipWith (· ^^^ ·) xs ys) (by simpa using hh)]
+        have : (List.filter (· != 0) ((y ^^^ z) :: List.zipWith (· ^^^ ·) ys zs)).length ≥
+            (List.filter (· != 0) (List.zipWith (· ^^^ ·) ys zs)).length := by
+          by_cases hh : y ^^^ z = 0
+          · rw [List.filter_cons_of_neg (by simp [hh])]; exact Nat.le_refl _
+          · rw [List.filter_cons_of_pos (by simpa using hh)]; simp
+        simp only [List.length_cons]; omega
+      · rw [List.filter_cons_of_pos (l := List.zipWith (· ^^^ ·) ys zs) (by simpa using hh)]
+        have : (List.filter (· != 0) ((x ^^^ y) :: List.zipWith (· ^^^ ·) xs ys)).length ≥
+            (List.filter (· != 0) (List.zipWith (· ^^^ ·) xs ys)).length := by
+          by_cases hh : x ^^^ y = 0
+          · rw [List.filter_cons_of_neg (by simp [hh])]; exact Nat.le_refl _
+          · rw [List.filter_cons_of_pos (by simpa using hh)]; simp
+        simp only [List.length_cons]; omega
+
 end Gzx.Proofs.MinDist
